@@ -134,7 +134,7 @@ func hostileImport(id, tier string, seed int64, ev *Evidence) (violations []stri
 		}(i)
 	}
 	wg.Wait()
-	replayDir := filepath.Join(VerifDir, "evidence", "replays")
+	replayDir := filepath.Join(OutDir, "evidence", "replays")
 	accepted, rejected := 0, 0
 	for i, o := range out {
 		last := o.s.Calls[len(o.s.Calls)-1]
